@@ -9,8 +9,10 @@ Import ListNotations.
 
 Definition blank_surface (h w : nat) : grid cell := gmake h w cell_default.
 
+(* in the domain, and no image shares a cell with another image or with a wide character
+   (wide characters may hide one another, narrow characters may be anywhere) *)
 Definition good_surface (o : oracle) (h w : nat) (s : grid cell) : Prop :=
-  in_domain o h w s = true /\ overlap_free o h w s = true.
+  in_domain o h w s = true /\ no_image_overlap o h w s = true.
 
 (* every surface drawn is good for the size the terminal has at that moment; a resize supplies a
    screen of the new size *)
